@@ -108,8 +108,19 @@ def check_copy(cfg, directory, base, model, tkind, as_path, acc, src_mode="close
     n = specs.lib()
     src = os.path.join(directory, "source.tdf")
     target = os.path.join(directory, "target.tdf")
-    with open(src, "wb") as f:
-        f.write(base)
+    if os.path.islink(src):
+        os.unlink(src)
+    if src_mode == "symlink":
+        # the source object was opened through a symbolic link: the copy still is a file of its own
+        real = os.path.join(directory, "source-real.tdf")
+        with open(real, "wb") as f:
+            f.write(base)
+        if os.path.exists(src):
+            os.unlink(src)
+        os.symlink(real, src)
+    else:
+        with open(src, "wb") as f:
+            f.write(base)
     before = make_target(target, tkind)
     s = n.tdf.Tdf(src)
     arg = pathlib.Path(target) if as_path else target
@@ -120,7 +131,7 @@ def check_copy(cfg, directory, base, model, tkind, as_path, acc, src_mode="close
         except Exception as e:  # noqa: BLE001
             return None, e
 
-    if src_mode == "closed":
+    if src_mode in ("closed", "symlink"):
         c, err = do_copy()
     else:
         if src_mode in ("write", "write-after-op"):
@@ -202,6 +213,9 @@ def check_open(directory, acc):
     cases = {"absent": None, "empty": b"", "nontdf": b"x" * 5000, "short-signature": R.SIGNATURE[:10],
              "wrong-signature": bytes(16) + R.build_file(2, [])[16:],
              "signature-only": R.SIGNATURE}
+    whole = R.build_file(2, [kdriver.known_record(R.T_EVENTS, 0)])
+    for k in range(16):     # a well-formed file except for one byte of the 16-byte signature
+        cases[f"sig-byte-{k}"] = whole[:k] + bytes([whole[k] ^ 0x5A]) + whole[k + 1:]
     for name, data in cases.items():
         path = os.path.join(directory, "open.tdf")
         if os.path.exists(path):
@@ -242,8 +256,8 @@ def check_open(directory, acc):
             h = getattr(t, "handler", None)
             if h is not None and not h.closed:
                 h.close()
-        if name in ("empty", "nontdf", "short-signature", "wrong-signature") and got is not None:
-            acc.violation("non-tdf-yields-data", f"{PROP}:non-tdf-yields-data:{name}", wit, f"{name} file: {got[0]} returned {got[1]!r:.60}")
+        if (name in ("empty", "nontdf", "short-signature", "wrong-signature") or name.startswith("sig-byte")) and got is not None:
+            acc.violation("non-tdf-yields-data", f"{PROP}:non-tdf-yields-data:{name.rstrip('0123456789')}", wit, f"{name} file: {got[0]} returned {got[1]!r:.60}")
         elif data is not None and read(path) != data:
             acc.violation("open-changed-file", f"{PROP}:open-changed-file:{name}", wit, name)
         else:
@@ -384,7 +398,7 @@ def _shard(cfg_w):
                 wit = {"config": cfg.to_witness(), "base": base.hex(), "target": tkind, "as_path": as_path,
                        "base_model": specs.dump([(r.type, r.format, r.payload, r.comment, r.ctime, r.mtime) for r in model.live.values()]),
                        "history": [kdriver.op_str(o) for o in hist]}
-                for src_mode in ("closed", "read", "write", "write-after-op"):
+                for src_mode in ("closed", "read", "write", "write-after-op", "symlink"):
                     if src_mode != "closed" and as_path:
                         continue
                     wit2 = dict(wit, src_mode=src_mode)
